@@ -129,7 +129,8 @@ def axioms_for(terms):
 
 
 USE_RATNORM = True
-RATNORM_CROSS_EVERY = 20
+RATNORM_CROSS_EVERY = 50          # quick tier; the thorough tier re-decides every 20th (framework sets it)
+RATNORM_CROSS_TIMEOUT_MS = 1500
 RATNORM = {"identities": 0, "discharged": 0, "denominator_queries": 0, "fallbacks": 0, "z3_agree": 0, "z3_unknown": 0, "z3_DISAGREE": 0}
 
 
@@ -254,7 +255,7 @@ def valid(claim, pc=(), assumptions=(), timeout_ms=20000, want_model=True, weak_
             RATNORM["n"] = RATNORM.get("n", 0) + 1
             if RATNORM_CROSS_EVERY and RATNORM["n"] % RATNORM_CROSS_EVERY == 0:
                 s2 = z3.Solver()
-                s2.set("timeout", 10000)
+                s2.set("timeout", RATNORM_CROSS_TIMEOUT_MS)
                 for h in hyps:
                     s2.add(h)
                 for a in axioms_for(hyps + [neg]):
